@@ -353,6 +353,7 @@ def gen_case(rng, tree, small=False):
         cwd_rel = {"root": "top/proj", "parent": "top", "sibling": "top/sib"}[cwd_kind]
     cwd_abs = "/B/" + cwd_rel          # symbolic base, replaced later
     targets, labels = [], []
+    file_with_slash = False          # `file.py/` cannot be opened (ENOTDIR): discovered, then skipped by the scan
     for _ in range(rng.choice([1, 1, 1, 2, 2, 3])):
         r = rng.random()
         if r < 0.45 or not objs:
@@ -363,9 +364,14 @@ def gen_case(rng, tree, small=False):
             t_abs = "/B/top/proj/" + "/".join(rng.choice(objs)[0])
         else:
             t_abs = "/B/top/proj/" + rng.choice(["nonexistent.py", "nodir/x.txt", "pkg"])
+            file_with_slash = True       # (possibly) missing target: discovered, then skipped by the scan — not a CLI case either
         text, lab = spell(rng, t_abs, cwd_abs)
         targets.append(text.replace("/B", BASE) if text.startswith("/B") else text)
         labels.append(lab)
+        t_comps = t_abs[len("/B/top/proj"):].strip("/").split("/") if t_abs != "/B/top/proj" else []
+        t_is_dir = (not t_comps) or any(o[0] == t_comps and o[1] in ("d", "ld") for o in objs)
+        if "trailing-slash" in lab and not t_is_dir:
+            file_with_slash = True
     if rng.random() < 0.03:
         targets.append(rng.choice(["", "-"]))
         labels.append("special")
@@ -376,8 +382,14 @@ def gen_case(rng, tree, small=False):
         rel = os.path.relpath("/B/top/proj/" + "/".join(dcomps), cwd_abs)
         x = rng.choice([dcomps[-1], rel, "./" + rel, "*/" + dcomps[-1] + "/*", rel + "/*", dcomps[-1] + ",tests"])
     cfg = rng.choice(CFG_POOL)
+    # one case in ten goes through the command-line tool (argument handling in cli/main.py sits in front of discover_files: seeded change C11-m10 expanded
+    # glob metacharacters in target names there, so `jobs[nightly]` or `w[1].py` matched nothing): only cases whose every scanned file survives the scan
+    # itself (no dangling links, no missing targets, no stdin), so that the verbose report lists exactly the discovered files
+    via = "api"
+    if rng.random() < 0.1 and not file_with_slash and "special" not in labels and not any("nonexistent" in t or "nodir" in t for t in targets) and '"dang"' not in json.dumps(tree):
+        via = "cli"
     return {"kind": "discover", "tree": tree, "cwd": cwd_rel, "cwd_kind": cwd_kind, "targets": targets, "labels": labels,
-            "recursive": rng.random() < 0.85, "x": x, "cfg": cfg, "via": "api"}
+            "recursive": rng.random() < 0.85, "x": x, "cfg": cfg, "via": via}
 
 
 # ============================================================================ running one case
